@@ -1006,6 +1006,11 @@ impl Kind for SetK {
 
 struct ListK;
 
+thread_local! {
+    /// Objects that outlive the observable of the current case (cleared when the next case starts).
+    static KEEP_ALIVE: std::cell::RefCell<Vec<Box<dyn std::any::Any>>> = const { std::cell::RefCell::new(Vec::new()) };
+}
+
 impl Kind for ListK {
     const NAME: &'static str = "list";
     const IS_LIST: bool = true;
@@ -1016,7 +1021,14 @@ impl Kind for ListK {
     type Ev = ListEvent<El>;
 
     fn new(init: Vec<u32>) -> Self::Obs {
-        (ObservableList::from(els(init.clone())), init)
+        let o = ObservableList::from(els(init.clone()));
+        // In half of the cases a distributor handle outlives the list (it is kept until the next
+        // case starts): the list's task then stays alive after the list is dropped, and must
+        // still release subscribers that have received everything.
+        if init.len() % 2 == 0 {
+            KEEP_ALIVE.with(|k| k.borrow_mut().push(Box::new(o.distributor())));
+        }
+        (o, init)
     }
     fn snap(o: &Self::Obs) -> Snap {
         o.1.clone()
@@ -2000,7 +2012,12 @@ pub fn run(case: &Case) -> Outcome {
         KindSel::Deque => sim::run_sim(case.sched.tokio_seed, &tape, case.sched.defer, execute::<DequeK>(case)),
         KindSel::Map => sim::run_sim(case.sched.tokio_seed, &tape, case.sched.defer, execute::<MapK>(case)),
         KindSel::Set => sim::run_sim(case.sched.tokio_seed, &tape, case.sched.defer, execute::<SetK>(case)),
-        KindSel::List => sim::run_sim(case.sched.tokio_seed, &tape, case.sched.defer, execute::<ListK>(case)),
+        KindSel::List => {
+            KEEP_ALIVE.with(|k| k.borrow_mut().clear());
+            let r = sim::run_sim(case.sched.tokio_seed, &tape, case.sched.defer, execute::<ListK>(case));
+            KEEP_ALIVE.with(|k| k.borrow_mut().clear());
+            r
+        }
     };
     let mut out = Outcome::default();
     out.frames = res.frames;
